@@ -1769,6 +1769,647 @@ GENERATORS["Biccs"] = gen_biccs
 
 
 # ---------------------------------------------------------------------------------------------------------
+# conversion.to_unstable: the body of `for nd in gaf_contigs`, statement by statement (C01, C02)
+#
+# A small typed translator in continuation-passing style: every statement is translated in the environment left by the
+# statements before it; an `if` that cannot be folded into one `let` duplicates what follows it into both branches (so a variable
+# may be a string on one path and an int on the other, as `query_start` is); every operation that can raise (`tmp[1]`, unpacking
+# into two names, `int()` of a string, `None + str`) becomes a `match` whose failing arm is `none`.
+
+_CL_RESERVED = {"end", "at", "from", "do", "in", "then", "else", "if", "match", "with", "fun", "let", "have", "show", "open", "where",
+                "by", "def", "structure", "instance", "class", "namespace", "section", "variable", "universe", "import", "mutual",
+                "deriving", "for", "return", "try", "catch", "finally", "unless", "Type", "Prop", "Sort", "some", "none", "true", "false",
+                "st", "acc", "reference", "strandPlus", "path_start", "path_end", "rstrip", "toInt", "splitOnChar", "pySlice", "searchIv",
+                "using", "from", "extends", "infix", "notation", "macro", "syntax", "theorem", "example", "abbrev", "inductive"}
+_CL_TYPES = {"Int": "Int", "Bool": "Bool", "Ids": "List String", "Path": "List (Bool × String)", "NodeId": "String", "OptOrient": "Option Bool"}
+# the variables that live across iterations: python name -> (field of Gen.ULoop, representation)
+_CL_STATE = [("unstable_coord", "Path"), ("orient", "OptOrient"), ("new_start", "Int"), ("new_total", "Int"), ("split_contig", "Bool")]
+_CL_LOCAL_DECL = {"nodes_tmp": "Ids"}     # a list of node ids (`[]` alone does not say of what)
+
+
+def _cl_name(n):
+    return n + "_" if n in _CL_RESERVED else n
+
+
+def _cl_strlit(v):
+    if len(v) == 1 and v not in "'\\":
+        return "['%s']" % v
+    return '"%s".toList' % v.replace("\\", "\\\\").replace('"', '\\"')
+
+
+def _cl_stores(nodes):
+    """names assigned (or mutated through .append) in the statements, in source order"""
+    found = []
+    for st in nodes:
+        for n in ast.walk(st):
+            if isinstance(n, ast.Name) and isinstance(n.ctx, ast.Store):
+                found.append((n.lineno, n.col_offset, n.id))
+            if (isinstance(n, ast.Call) and isinstance(n.func, ast.Attribute) and n.func.attr in ("append", "extend", "pop", "insert", "remove", "clear")
+                    and isinstance(n.func.value, ast.Name)):
+                found.append((n.lineno, n.col_offset, n.func.value.id))
+    out = []
+    for _, _, nm in sorted(found):
+        if nm not in out:
+            out.append(nm)
+    return out
+
+
+def _cl_loads(nodes):
+    out = set()
+    for st in nodes:
+        for n in ast.walk(st):
+            if isinstance(n, ast.Name) and isinstance(n.ctx, ast.Load):
+                out.add(n.id)
+    return out
+
+
+class _ConvLoop:
+    def __init__(self, fn, rec, ref, state):
+        self.fn, self.rec, self.ref, self.state = fn, rec, ref, state
+        self.allnames = {n.id for n in ast.walk(fn) if isinstance(n, ast.Name)}
+        self.defs = {}          # id(For node) -> (name, text, signature)
+        self.k_continue = []    # stack: what `continue` / the end of the body produces
+
+    # ---- expressions ------------------------------------------------------------------------------------
+    def fresh(self, base):
+        n = base
+        while n in self.allnames or n in _CL_RESERVED:
+            n += "_"
+        return n
+
+    def ex(self, e, env, want=None):
+        """-> (binds, lean term, type); binds = [(kind, pattern, optional-valued term)] to be matched first, in evaluation order"""
+        if isinstance(e, ast.Constant):
+            v = e.value
+            if isinstance(v, bool):
+                return [], "true" if v else "false", "Bool"
+            if v is None and want == "OptOrient":
+                return [], "none", "OptOrient"
+            if isinstance(v, int):
+                return [], "(%d : Int)" % v, "Int"
+            if isinstance(v, str):
+                if want == "OptOrient" and v in (">", "<"):
+                    return [], "some true" if v == ">" else "some false", "OptOrient"
+                if want == "Path" and v == "":
+                    return [], "[]", "Path"
+                if want in (None, "Str"):
+                    return [], _cl_strlit(v), "Str"
+            raise Untranslatable("constant %r where %s is expected" % (v, want))
+        if isinstance(e, ast.UnaryOp) and isinstance(e.op, ast.USub):
+            if isinstance(e.operand, ast.Constant) and isinstance(e.operand.value, int) and not isinstance(e.operand.value, bool):
+                return [], "(-%d : Int)" % e.operand.value, "Int"
+            b, l, t = self.ex(e.operand, env)
+            if t != "Int":
+                raise Untranslatable("unary minus of %s" % t)
+            return b, "(-%s)" % l, "Int"
+        if isinstance(e, ast.Name):
+            ent = env.get(e.id)
+            if ent is None:
+                raise Untranslatable("%s is read but not assigned before in this iteration" % e.id)
+            if ent[1] == "Unbound":
+                raise Untranslatable("%s may be unbound where it is read" % e.id)
+            if want == "OptOrient" and ent[1] == "Str":
+                if e.id in env.get("#orientlike", ()):
+                    return [], "some (%s == ['>'])" % ent[0], "OptOrient"       # under the test `x == ">" or x == "<"`
+                raise Untranslatable("a string that is not known to be '>' or '<' is used as an orientation")
+            return [], ent[0], ent[1]
+        if isinstance(e, ast.Attribute) and isinstance(e.value, ast.Name):
+            if e.value.id == self.rec and e.value.id not in env:
+                if e.attr in ("path_start", "path_end"):
+                    return [], e.attr, "Int"
+                if e.attr == "strand":
+                    return [], "strandPlus", "Strand"
+                raise Untranslatable("attribute %s of the record" % e.attr)
+            ent = env.get(e.value.id)
+            if ent and ent[1] == "Seg" and e.attr == "id":
+                return [], "%s.id" % ent[0], "NodeId"
+            raise Untranslatable("attribute " + ast.unparse(e))
+        if isinstance(e, ast.BinOp) and type(e.op) in (ast.Add, ast.Sub):
+            b1, l1, t1 = self.ex(e.left, env)
+            b2, l2, t2 = self.ex(e.right, env)
+            if t1 == "Int" and t2 == "Int":
+                return b1 + b2, "(%s %s %s)" % (l1, "+" if isinstance(e.op, ast.Add) else "-", l2), "Int"
+            raise Untranslatable("%s of %s and %s" % (type(e.op).__name__, t1, t2))
+        if isinstance(e, ast.Call) and not e.keywords:
+            f = e.func
+            if isinstance(f, ast.Name) and f.id == "int" and len(e.args) == 1:
+                a = e.args[0]
+                if (isinstance(a, ast.Subscript) and isinstance(a.slice, ast.Constant) and a.slice.value == 1
+                        and isinstance(a.value, ast.Subscript) and isinstance(a.value.slice, ast.Constant) and a.value.slice.value in ("SO", "LN")
+                        and isinstance(a.value.value, ast.Attribute) and a.value.value.attr == "tags" and isinstance(a.value.value.value, ast.Name)):
+                    ent = env.get(a.value.value.value.id)
+                    if ent and ent[1] == "Seg":       # a graph node on a contig is (id, SO, SO + LN)
+                        return [], ("%s.so" % ent[0]) if a.value.slice.value == "SO" else "(%s.en - %s.so)" % (ent[0], ent[0]), "Int"
+                if isinstance(a, ast.Name):
+                    memo = env.get("int:" + a.id)
+                    if memo:
+                        return [], memo[0], "Int"
+                    b, l, t = self.ex(a, env)
+                    if t == "Int":
+                        return b, l, "Int"
+                    if t == "Str":
+                        v = self.fresh(a.id + "_int")
+                        env["int:" + a.id] = (v, "Int")
+                        return b + [("opt", v, "toInt %s" % l)], v, "Int"
+                raise Untranslatable("int(%s)" % ast.unparse(a))
+            if isinstance(f, ast.Name) and f.id == "len" and len(e.args) == 1:
+                b, l, t = self.ex(e.args[0], env)
+                if t == "Segs":
+                    return b, "((%s).length : Int)" % l, "Int"
+                raise Untranslatable("len of %s" % t)
+            if isinstance(f, ast.Name) and f.id == "reversed" and len(e.args) == 1:
+                b, l, t = self.ex(e.args[0], env)
+                if t == "Ids":
+                    return b, "(%s).reverse" % l, "Ids"
+                raise Untranslatable("reversed of %s" % t)
+            if isinstance(f, ast.Attribute) and f.attr == "rstrip" and not e.args:
+                b, l, t = self.ex(f.value, env)
+                if t == "Str":
+                    return b, "(rstrip %s)" % l, "Str"
+            if (isinstance(f, ast.Attribute) and f.attr == "split" and len(e.args) == 1 and isinstance(e.args[0], ast.Constant)
+                    and isinstance(e.args[0].value, str) and len(e.args[0].value) == 1 and e.args[0].value not in "'\\"):
+                b, l, t = self.ex(f.value, env)
+                if t == "Str":
+                    return b, "(splitOnChar '%s' %s)" % (e.args[0].value, l), "ListStr"
+            if ast.unparse(f) in ("utils.search_intervals", "search_intervals") and len(e.args) == 5:
+                bs, ls = [], []
+                for a, t_want in zip(e.args, ("Segs", "Int", "Int", "Int", "Int")):
+                    b, l, t = self.ex(a, env)
+                    if t != t_want:
+                        raise Untranslatable("argument of search_intervals: %s is %s" % (ast.unparse(a), t))
+                    bs += b
+                    ls.append(l)
+                # recursion by fuel, as in Gen/SearchIv.lean: the length of the list + 2 calls suffice
+                return bs, "Gaftools.Gen.searchIv %s %s %s ((%s).length + 2) %s %s" % (ls[0], ls[1], ls[2], ls[0], ls[3], ls[4]), "OptPair"
+            raise Untranslatable("call " + ast.unparse(e)[:60])
+        if isinstance(e, ast.Subscript):
+            if isinstance(e.value, ast.Name) and e.value.id == self.ref and self.ref not in env:
+                b, l, t = self.ex(e.slice, env)
+                if t != "Str":
+                    raise Untranslatable("reference[%s]" % t)
+                return b, "(reference (String.ofList %s))" % l, "Segs"       # an unknown name gives [] here and a failing search below
+            b, l, t = self.ex(e.value, env)
+            if t == "ListStr" and isinstance(e.slice, ast.Constant) and isinstance(e.slice.value, int) and e.slice.value >= 0:
+                v = self.fresh("%s_%d" % (e.value.id if isinstance(e.value, ast.Name) else "item", e.slice.value))
+                return b + [("opt", v, "%s[%d]?" % (l, e.slice.value))], v, "Str"             # IndexError = none
+            if t == "Segs" and isinstance(e.slice, ast.Slice) and e.slice.step is None and e.slice.lower is not None and e.slice.upper is not None:
+                b1, l1, t1 = self.ex(e.slice.lower, env)
+                b2, l2, t2 = self.ex(e.slice.upper, env)
+                if t1 == "Int" and t2 == "Int":
+                    return b + b1 + b2, "(pySlice %s %s %s)" % (l, l1, l2), "Segs"
+            raise Untranslatable("subscript " + ast.unparse(e)[:60])
+        raise Untranslatable("expression " + ast.unparse(e)[:60])
+
+    def test(self, e, env):
+        """a condition as a decidable proposition (no operation that can raise is allowed inside)"""
+        if isinstance(e, ast.BoolOp):
+            return "(" + (" ∧ " if isinstance(e.op, ast.And) else " ∨ ").join(self.test(v, env) for v in e.values) + ")"
+        if isinstance(e, ast.UnaryOp) and isinstance(e.op, ast.Not):
+            if isinstance(e.operand, ast.Name):
+                b, l, t = self.ex(e.operand, env)
+                if t == "OptOrient":
+                    return "(%s = none)" % l          # '>' and '<' are truthy
+                if t == "Bool":
+                    return "(%s = false)" % l
+            return "(¬ %s)" % self.test(e.operand, env)
+        if isinstance(e, ast.Name):
+            b, l, t = self.ex(e, env)
+            if t == "Bool":
+                return "(%s = true)" % l
+            if t == "OptOrient":
+                return "(%s ≠ none)" % l
+            raise Untranslatable("truth value of %s" % t)
+        if isinstance(e, ast.Compare) and len(e.ops) > 1:
+            parts, left = [], e.left
+            for op, right in zip(e.ops, e.comparators):
+                parts.append(self.test(ast.Compare(left=left, ops=[op], comparators=[right]), env))
+                left = right
+            return "(" + " ∧ ".join(parts) + ")"
+        if isinstance(e, ast.Compare):
+            op, l_, r_ = type(e.ops[0]), e.left, e.comparators[0]
+            if op in (ast.In, ast.NotIn):
+                b, r, t = self.ex(r_, env)
+                if not (t == "Str" and not b and isinstance(l_, ast.Constant) and isinstance(l_.value, str) and len(l_.value) == 1 and l_.value not in "'\\"):
+                    raise Untranslatable("membership test " + ast.unparse(e))
+                s = "(%s.contains '%s' = true)" % (r, l_.value)
+                return s if op is ast.In else "(¬ %s)" % s
+            b1, l, t1 = self.ex(l_, env)
+            want = {"OptOrient": "OptOrient", "Str": "Str"}.get(t1)
+            if t1 == "Strand":
+                if not (op in (ast.Eq, ast.NotEq) and isinstance(r_, ast.Constant) and r_.value in ("+", "-")):
+                    raise Untranslatable("strand test " + ast.unparse(e))
+                return "(strandPlus = %s)" % ("true" if (r_.value == "+") == (op is ast.Eq) else "false")
+            b2, r, t2 = self.ex(r_, env, want)
+            if b1 or b2:
+                raise Untranslatable("a test that can raise: " + ast.unparse(e))
+            if t1 != t2 or t1 not in ("Int", "Str", "OptOrient", "Bool"):
+                raise Untranslatable("comparison of %s and %s" % (t1, t2))
+            if op in (ast.Eq, ast.NotEq):
+                return "(%s %s %s)" % (l, "=" if op is ast.Eq else "≠", r)
+            if t1 == "Int" and op in (ast.Lt, ast.LtE, ast.Gt, ast.GtE):
+                return "(%s %s %s)" % (l, {ast.Lt: "<", ast.LtE: "≤", ast.Gt: ">", ast.GtE: "≥"}[op], r)
+        raise Untranslatable("test " + ast.unparse(e)[:60])
+
+    @staticmethod
+    def orient_facts(t):
+        """names that are '>' or '<' whenever the test holds"""
+        parts = t.values if isinstance(t, ast.BoolOp) and isinstance(t.op, ast.Or) else [t]
+        names = set()
+        for p in parts:
+            if not (isinstance(p, ast.Compare) and len(p.ops) == 1 and isinstance(p.ops[0], ast.Eq) and isinstance(p.left, ast.Name)
+                    and isinstance(p.comparators[0], ast.Constant) and p.comparators[0].value in (">", "<")):
+                return set()
+            names.add(p.left.id)
+        return names if len(names) == 1 else set()
+
+    # ---- statements -------------------------------------------------------------------------------------
+    def with_binds(self, binds, ind, cont):
+        if not binds:
+            return cont(ind)
+        (kind, pat, term), more = binds[0], binds[1:]
+        pad = " " * ind
+        if kind == "opt":
+            return [pad + "match %s with" % term, pad + "| none => none", pad + "| some %s =>" % pat] + self.with_binds(more, ind + 2, cont)
+        return [pad + "match %s with" % term, pad + "| [%s, %s] =>" % pat] + self.with_binds(more, ind + 2, cont) + [pad + "| _ => none"]
+
+    @staticmethod
+    def bind(env, name, lean, ty):
+        env = dict(env)
+        env[name] = (lean, ty)
+        env.pop("int:" + name, None)
+        if name in env.get("#orientlike", ()):
+            env["#orientlike"] = set(env["#orientlike"]) - {name}
+        return env
+
+    def decl(self, name, env):
+        for n, t in self.state:
+            if n == name:
+                return t
+        if name in _CL_LOCAL_DECL:
+            return _CL_LOCAL_DECL[name]
+        ent = env.get(name)
+        return ent[1] if ent and ent[1] in ("Int", "Bool", "OptOrient", "Path", "Ids") else None
+
+    def join_value(self, st, env, var):
+        """`if c: v = a [else: v = b]` (possibly nested, one variable, nothing that can raise) as one term"""
+        def arm(stmts):
+            if not stmts:
+                ent = env.get(var)
+                if ent is None or ent[1] == "Unbound":
+                    return None
+                return ent[0]
+            if len(stmts) != 1:
+                return None
+            s = stmts[0]
+            if isinstance(s, ast.Assign) and len(s.targets) == 1 and isinstance(s.targets[0], ast.Name) and s.targets[0].id == var:
+                try:
+                    b, l, t = self.ex(s.value, dict(env), self.decl(var, env))
+                except Untranslatable:
+                    return None
+                if b or t != self.decl(var, env):
+                    return None
+                return l
+            if isinstance(s, ast.If):
+                return self.join_value(s, env, var)
+            return None
+        a, b = arm(st.body), arm(st.orelse)
+        if a is None or b is None:
+            return None
+        try:
+            return "(if %s then %s else %s)" % (self.test(st.test, env), a, b)
+        except Untranslatable:
+            return None
+
+    def block(self, stmts, env, ind, k):
+        pad = " " * ind
+        if not stmts:
+            return k(env, ind)
+        s, rest = stmts[0], stmts[1:]
+        if isinstance(s, ast.Pass) or (isinstance(s, ast.Expr) and isinstance(s.value, ast.Constant)):
+            return self.block(rest, env, ind, k)
+        if isinstance(s, ast.Continue):
+            return self.k_continue[-1](env, ind)
+        if isinstance(s, ast.Assign) and len(s.targets) == 1 and isinstance(s.targets[0], ast.Name):
+            name = s.targets[0].id
+            want = self.decl(name, env)
+            if isinstance(s.value, ast.List) and not s.value.elts:
+                if want != "Ids":
+                    raise Untranslatable("%s = []: a list of what?" % name)
+                b, l, t = [], "([] : List String)", "Ids"
+            else:
+                b, l, t = self.ex(s.value, env, want)
+            if want is not None and t != want:
+                raise Untranslatable("%s is assigned a %s" % (name, t))
+            if t not in ("Int", "Bool", "Str", "ListStr", "Ids", "Path", "OptOrient", "Segs"):
+                raise Untranslatable("%s is assigned a %s" % (name, t))
+            ln = _cl_name(name)
+            return self.with_binds(b, ind, lambda i2: [" " * i2 + "let %s := %s" % (ln, l)] + self.block(rest, self.bind(env, name, ln, t), i2, k))
+        if (isinstance(s, ast.Assign) and len(s.targets) == 1 and isinstance(s.targets[0], ast.Tuple) and len(s.targets[0].elts) == 2
+                and all(isinstance(x, ast.Name) for x in s.targets[0].elts)):
+            n1, n2 = (x.id for x in s.targets[0].elts)
+            b, l, t = self.ex(s.value, env)
+            l1, l2 = _cl_name(n1), _cl_name(n2)
+            if t == "OptPair":
+                b, ty = b + [("opt", "(%s, %s)" % (l1, l2), l)], "Int"
+            elif t == "ListStr":
+                b, ty = b + [("list2", (l1, l2), l)], "Str"            # ValueError (not exactly two parts) = none
+            else:
+                raise Untranslatable("unpacking a %s" % t)
+            env2 = self.bind(self.bind(env, n1, l1, ty), n2, l2, ty)
+            return self.with_binds(b, ind, lambda i2: self.block(rest, env2, i2, k))
+        if isinstance(s, ast.AugAssign) and isinstance(s.target, ast.Name) and isinstance(s.op, ast.Add):
+            name = s.target.id
+            b0, cur, t0 = self.ex(ast.Name(id=name, ctx=ast.Load()), env)
+            ln = _cl_name(name)
+            if t0 == "Int":
+                b, l, t = self.ex(s.value, env)
+                if t != "Int":
+                    raise Untranslatable("%s += %s" % (name, t))
+                return self.with_binds(b, ind, lambda i2: [" " * i2 + "let %s := (%s + %s)" % (ln, cur, l)] + self.block(rest, self.bind(env, name, ln, "Int"), i2, k))
+            if t0 == "Path" and isinstance(s.value, ast.BinOp) and isinstance(s.value.op, ast.Add):
+                b1, l1, t1 = self.ex(s.value.left, env)
+                b2, l2, t2 = self.ex(s.value.right, env)
+                if t1 == "OptOrient" and t2 == "NodeId" and not b1 and not b2:
+                    v = self.fresh("o")
+                    # None + str raises TypeError
+                    return self.with_binds([("opt", v, l1)], ind, lambda i2: [" " * i2 + "let %s := (%s ++ [(%s, %s)])" % (ln, cur, v, l2)]
+                                           + self.block(rest, self.bind(env, name, ln, "Path"), i2, k))
+            raise Untranslatable("augmented assignment " + ast.unparse(s)[:60])
+        if (isinstance(s, ast.Expr) and isinstance(s.value, ast.Call) and isinstance(s.value.func, ast.Attribute) and s.value.func.attr == "append"
+                and isinstance(s.value.func.value, ast.Name) and len(s.value.args) == 1 and not s.value.keywords):
+            name = s.value.func.value.id
+            b0, cur, t0 = self.ex(s.value.func.value, env)
+            b, l, t = self.ex(s.value.args[0], env)
+            if t0 == "Ids" and t == "NodeId":
+                ln = _cl_name(name)
+                return self.with_binds(b, ind, lambda i2: [" " * i2 + "let %s := (%s ++ [%s])" % (ln, cur, l)] + self.block(rest, self.bind(env, name, ln, "Ids"), i2, k))
+            raise Untranslatable("append of %s to %s" % (t, t0))
+        if isinstance(s, ast.If):
+            stored = _cl_stores([s])
+            if len(stored) == 1 and stored[0] in env:
+                j = self.join_value(s, env, stored[0])
+                if j is not None:
+                    ln = _cl_name(stored[0])
+                    return [pad + "let %s := %s" % (ln, j)] + self.block(rest, self.bind(env, stored[0], ln, self.decl(stored[0], env)), ind, k)
+            t = self.test(s.test, env)
+            env_t = dict(env)
+            facts = self.orient_facts(s.test)
+            if facts:
+                env_t["#orientlike"] = set(env.get("#orientlike", ())) | facts
+            return ([pad + "if %s then" % t] + self.block(list(s.body) + rest, env_t, ind + 2, k) + [pad + "else"]
+                    + self.block(list(s.orelse) + rest, dict(env), ind + 2, k))
+        if isinstance(s, ast.For) and isinstance(s.target, ast.Name) and not s.orelse:
+            return self.loop(s, rest, env, ind, k)
+        raise Untranslatable("statement " + ast.unparse(s)[:70])
+
+    # ---- inner loops ------------------------------------------------------------------------------------
+    def loop(self, s, rest, env, ind, k):
+        pad = " " * ind
+        b, it, ty = self.ex(s.iter, env)
+        tgt = s.target.id
+        stored = [n for n in _cl_stores(s.body) if n != tgt]
+        state = [n for n in stored if n in env and env[n][1] != "Unbound" and not n.startswith("#")]
+        local = [n for n in stored if n not in state] + [tgt]
+        if not state:
+            raise Untranslatable("a loop that changes nothing")
+        for n in state:
+            if env[n][1] not in _CL_TYPES:
+                raise Untranslatable("loop state %s : %s" % (n, env[n][1]))
+
+        def after(env_):            # what the loop body bound is not read afterwards (it would be unbound after zero iterations)
+            env_ = dict(env_)
+            for n in local:
+                env_[n] = (n, "Unbound")
+                env_.pop("int:" + n, None)
+            return env_
+        if ty == "Segs":
+            # a pure body: one named step function, folded over the list
+            name, params = self.scan_def(s, state, env)
+            args, binds = [], list(b)
+            for pn, kind, pty in params:
+                node = ast.Call(func=ast.Name(id="int", ctx=ast.Load()), args=[ast.Name(id=pn, ctx=ast.Load())], keywords=[]) if kind == "int" else ast.Name(id=pn, ctx=ast.Load())
+                bb, l, t = self.ex(node, env)
+                if t != pty:
+                    raise Untranslatable("the inner loop reads %s as %s here and as %s elsewhere" % (pn, t, pty))
+                binds += bb
+                args.append(l)
+            acc = "acc"
+            projs = self.projs(acc, len(state))
+
+            def cont(i2):
+                p2 = " " * i2
+                lines = [p2 + "let %s := (%s).foldl (%s) (%s)" % (acc, it, " ".join([name] + args), ", ".join(env[n][0] for n in state))]
+                env2 = env
+                for n, pr in zip(state, projs):
+                    lines.append(p2 + "let %s := %s" % (_cl_name(n), pr))
+                    env2 = self.bind(env2, n, _cl_name(n), env[n][1])
+                return lines + self.block(rest, after(env2), i2, k)
+            return self.with_binds(binds, ind, cont)
+        if ty == "Ids" and len(state) == 1:
+            # a body that can raise: folded in the option monad, the step written in place
+            v = state[0]
+            vt = env[v][1]
+            lv, li = _cl_name(v), _cl_name(tgt)
+            inner_env = self.bind(self.bind(env, v, lv, vt), tgt, li, "NodeId")
+            done = lambda e_, i_: [" " * i_ + "some %s" % e_[v][0]]
+            self.k_continue.append(done)
+            body = self.block(list(s.body), inner_env, ind + 6, done)
+            self.k_continue.pop()
+            body[-1] += ")"
+
+            def cont(i2):
+                p2 = " " * i2
+                return ([p2 + "match (%s).foldlM (fun (%s : %s) (%s : String) =>" % (it, lv, _CL_TYPES[vt], li)] + [(" " * (i2 - ind)) + x for x in body]
+                        + [p2 + "    %s with" % env[v][0], p2 + "| none => none", p2 + "| some %s =>" % lv]
+                        + self.block(rest, after(self.bind(env, v, lv, vt)), i2 + 2, k))
+            return self.with_binds(b, ind, cont)
+        raise Untranslatable("loop over a %s with %d changing variables" % (ty, len(state)))
+
+    @staticmethod
+    def projs(acc, n):
+        if n == 1:
+            return [acc]
+        return ["%s.%s" % (acc, ".".join(["2"] * i + ["1"])) for i in range(n - 1)] + ["%s.%s" % (acc, ".".join(["2"] * (n - 1)))]
+
+    def scan_def(self, s, state, env):
+        """the body of a `for` over graph nodes as a function (parameters) -> state -> node -> state"""
+        if id(s) in self.defs:
+            name, _, params, sig = self.defs[id(s)]
+            if sig != [env[n][1] for n in state]:
+                raise Untranslatable("inner loop state differs between the paths that reach it")
+            return name, params
+        tgt = s.target.id
+        stored = _cl_stores(s.body)
+        free = sorted(n for n in _cl_loads(s.body) if n not in stored and n != tgt and n not in ("int", "len"))
+        # a free name that only occurs as int(<name>) is passed as that integer
+        under_int = set()
+        for n in ast.walk(ast.Module(body=list(s.body), type_ignores=[])):
+            if isinstance(n, ast.Call) and isinstance(n.func, ast.Name) and n.func.id == "int" and len(n.args) == 1 and isinstance(n.args[0], ast.Name):
+                under_int.add(id(n.args[0]))
+        params = []
+        inner = {}
+        for n in free:
+            occ = [x for x in ast.walk(ast.Module(body=list(s.body), type_ignores=[])) if isinstance(x, ast.Name) and x.id == n]
+            if all(id(x) in under_int for x in occ):
+                params.append((n, "int", "Int"))
+                inner[n] = (_cl_name(n), "Int")
+            else:
+                ent = env.get(n)
+                if ent is None or ent[1] not in ("Int", "Bool"):
+                    raise Untranslatable("the inner loop reads %s" % n)
+                params.append((n, "var", ent[1]))
+                inner[n] = (_cl_name(n), ent[1])
+        # free names in source order of first use, so that the signature does not depend on their spelling
+        order = {}
+        for x in ast.walk(ast.Module(body=list(s.body), type_ignores=[])):
+            if isinstance(x, ast.Name) and x.id in inner and x.id not in order:
+                order[x.id] = (x.lineno, x.col_offset)
+        for x in ast.walk(ast.Module(body=list(s.body), type_ignores=[])):
+            if isinstance(x, ast.Name) and x.id in inner:
+                order[x.id] = min(order[x.id], (x.lineno, x.col_offset))
+        params.sort(key=lambda p: order[p[0]])
+        for n in state:
+            inner[n] = (_cl_name(n), env[n][1])
+        inner[tgt] = (_cl_name(tgt), "Seg")
+        name = "convScanStep" if not self.defs else "convScanStep%d" % (len(self.defs) + 1)
+        done = lambda e_, i_: [" " * i_ + "(%s)" % ", ".join(e_[n][0] for n in state)]
+        self.k_continue.append(done)
+        body = self.block(list(s.body), inner, 2, done)
+        self.k_continue.pop()
+        sty = " × ".join(_CL_TYPES[env[n][1]] for n in state)
+        head = "def %s %s(acc : %s) (%s : Seg) : %s :=" % (
+            name, "".join("(%s : %s) " % (_cl_name(p), t) for p, _, t in params), sty, _cl_name(tgt), sty)
+        lets = ["  let %s := %s" % (_cl_name(n), pr) for n, pr in zip(state, self.projs("acc", len(state)))]
+        text = "\n".join([head] + lets + body)
+        self.defs[id(s)] = (name, text, params, [env[n][1] for n in state])
+        return name, params
+
+
+def gen_conv_loop_u():
+    _, src = src_of("gaftools/conversion.py")
+    fn = find_func(ast.parse(src), "to_unstable")
+    params = [a.arg for a in fn.args.args]
+    if len(params) != 2:
+        raise Untranslatable("to_unstable arity")
+    rec, ref = params
+    loop = _only([st for st in fn.body if isinstance(st, ast.For) and any(isinstance(n, ast.Call) and ast.unparse(n.func).endswith("search_intervals") for n in ast.walk(st))],
+                 "loop over the path items of to_unstable")
+    if not (isinstance(loop.iter, ast.Name) and isinstance(loop.target, ast.Name)) or loop.orelse:
+        raise Untranslatable("shape of the loop over the path items")
+    at = fn.body.index(loop)
+    pre, post = fn.body[:at], fn.body[at + 1:]
+    # the list iterated over is the token list of the path column (its tokenisation is the model's `pathTokens`, tied by the
+    # differential tests only)
+    toks = [st for st in pre if isinstance(st, ast.Assign) and ast.unparse(st.targets[0]) == loop.iter.id]
+    if len(toks) != 1 or ast.unparse(toks[0].value) != "list(filter(None, re.split('(>)|(<)', %s.path)))" % rec:
+        raise Untranslatable("the loop does not run over the tokens of the path")
+    # which variables live across iterations: assigned in the body and (assigned before the loop or read after it)
+    stored = [n for n in _cl_stores(loop.body) if n != loop.target.id]
+    before = _cl_stores([st for st in pre if st is not toks[0]])
+    state = [n for n in stored if n in before or n in _cl_loads(post)]
+    if sorted(state) != sorted(n for n, _ in _CL_STATE):
+        raise Untranslatable("variables carried from one path item to the next: %s" % sorted(state))
+    if loop.target.id in _cl_loads(post) or loop.iter.id in stored:
+        raise Untranslatable("the loop variable is used after the loop / the token list changes in the loop")
+    tr = _ConvLoop(fn, rec, ref, _CL_STATE)
+    # initial values: one constant assignment before the loop, or unbound
+    init = {}
+    for n, ty in _CL_STATE:
+        asg = [st for st in pre if n in _cl_stores([st])]
+        if not asg:
+            if ty != "Bool":
+                raise Untranslatable("%s is not assigned before the loop" % n)
+            init[n] = None
+            continue
+        if len(asg) != 1 or not (isinstance(asg[0], ast.Assign) and len(asg[0].targets) == 1 and isinstance(asg[0].targets[0], ast.Name)):
+            raise Untranslatable("initial value of %s" % n)
+        b, l, t = tr.ex(asg[0].value, {}, ty)
+        if b or t != ty:
+            raise Untranslatable("initial value of %s" % n)
+        init[n] = l
+    unbound = [n for n, _ in _CL_STATE if init[n] is None]
+    if unbound != ["split_contig"]:
+        raise Untranslatable("unbound before the loop: %s" % unbound)
+    env = {}
+    head = []
+    for n, ty in _CL_STATE:
+        if init[n] is None:
+            env[n] = ("st.%s" % n, "Unbound")
+        else:
+            env[n] = (_cl_name(n), ty)
+            head.append("  let %s := st.%s" % (_cl_name(n), n))
+    tv = loop.target.id
+    env[tv] = (_cl_name(tv), "Str")
+
+    def done(e_, i_):
+        fields = []
+        for n, ty in _CL_STATE:
+            l, t = e_[n]
+            if init[n] is None:
+                fields.append("%s := %s" % (n, l if t == "Unbound" else "some %s" % l))
+            else:
+                if t != ty:
+                    raise Untranslatable("%s ends an iteration as %s" % (n, t))
+                fields.append("%s := %s" % (n, l))
+        return [" " * i_ + "some { %s }" % ", ".join(fields)]
+    tr.k_continue.append(done)
+    body = tr.block(list(loop.body), env, 2, done)
+    inner_defs = "\n\n".join(t for _, t, _, _ in tr.defs.values())
+    return _CONV_LOOP_U_TEMPLATE % {
+        "hdr": "generated by harness/translate.py from gaftools/conversion.py : to_unstable, the body of `for nd in gaf_contigs` translated statement by\n"
+               "    statement ('>' = true, '<' = false; a node on a contig is (id, SO, SO + LN); every operation that raises gives `none`) — do not edit",
+        "init": ", ".join("%s := %s" % (n, init[n] if init[n] is not None else "none") for n, _ in _CL_STATE),
+        "inner": inner_defs, "tok": _cl_name(tv), "lets": "\n".join(head), "body": "\n".join(body)}
+
+
+_CONV_LOOP_U_TEMPLATE = """import Gaftools.Model.ConvText
+import Gaftools.Gen.SearchIv
+/-! %(hdr)s -/
+set_option linter.unusedVariables false
+namespace Gaftools.Gen
+open Gaftools.Gaf Gaftools.Conv Gaftools.ConvText
+
+/-- the Python slice `l[a:b]` (negative indices count from the end, everything is clipped to the list) -/
+def pySlice {α : Type} (l : List α) (a b : Int) : List α :=
+  let n : Int := l.length
+  let a' := if a < 0 then max (a + n) 0 else min a n
+  let b' := if b < 0 then max (b + n) 0 else min b n
+  (l.drop a'.toNat).take (b' - a').toNat
+
+/-- the variables of `to_unstable` that live from one path token to the next; `split_contig` is unbound (`none`) until the first
+    contig token has been handled -/
+structure ULoop where
+  unstable_coord : List (Bool × String)
+  orient : Option Bool
+  new_start : Int
+  new_total : Int
+  split_contig : Option Bool
+deriving DecidableEq, Repr
+
+/-- the assignments before the loop -/
+def convInit : ULoop := { %(init)s }
+
+/-- the body of `for i in reference[...][start : end + 1]`; the state is the tuple of the variables it changes -/
+%(inner)s
+
+/-- the body of `for nd in gaf_contigs`; `none` = an exception -/
+def convTokStep (reference : String → List Seg) (strandPlus : Bool) (path_start path_end : Int) (st : ULoop) (%(tok)s : Str) : Option ULoop :=
+%(lets)s
+%(body)s
+end Gaftools.Gen
+"""
+
+def gen_conv_loop_u_safe():
+    try:
+        return gen_conv_loop_u()
+    except (AttributeError, TypeError, ValueError) as e:      # an AST shape the translator did not expect: not an alarm
+        raise Untranslatable("unexpected shape: %s" % e)
+
+
+GENERATORS["ConvLoopU"] = gen_conv_loop_u_safe
+
+
+# ---------------------------------------------------------------------------------------------------------
 # GFA.path_exists / GFA.extract_path / utils.rev_comp / find_path.run, statement by statement (C14 and its string level)
 
 PW_PREAMBLE = """import Gaftools.Model.TextLayer
@@ -4425,6 +5066,158 @@ end Gaftools.Gen
 namespace Gaftools.Gen
 open Gaftools.Conv
 def mergeNodes (node1 node2 : SNode) (orient1 orient2 : Bool) : Option (SNode × Bool) := Gaftools.Conv.mergeNodes node1 node2 orient1 orient2
+end Gaftools.Gen
+""",
+    "ConvLoopU": r"""import Gaftools.Model.ConvText
+import Gaftools.Gen.SearchIv
+/-! FALLBACK (source construct outside the translator's subset): the loop of to_unstable as translated from the source when this
+    file was written (hand-checked twin of Conv.itemStep / Conv.scanWindow at the token level) -/
+set_option linter.unusedVariables false
+namespace Gaftools.Gen
+open Gaftools.Gaf Gaftools.Conv Gaftools.ConvText
+
+/-- the Python slice `l[a:b]` (negative indices count from the end, everything is clipped to the list) -/
+def pySlice {α : Type} (l : List α) (a b : Int) : List α :=
+  let n : Int := l.length
+  let a' := if a < 0 then max (a + n) 0 else min a n
+  let b' := if b < 0 then max (b + n) 0 else min b n
+  (l.drop a'.toNat).take (b' - a').toNat
+
+/-- the variables of `to_unstable` that live from one path token to the next; `split_contig` is unbound (`none`) until the first
+    contig token has been handled -/
+structure ULoop where
+  unstable_coord : List (Bool × String)
+  orient : Option Bool
+  new_start : Int
+  new_total : Int
+  split_contig : Option Bool
+deriving DecidableEq, Repr
+
+/-- the assignments before the loop -/
+def convInit : ULoop := { unstable_coord := [], orient := none, new_start := (-1 : Int), new_total := (0 : Int), split_contig := none }
+
+/-- the body of `for i in reference[...][start : end + 1]`; the state is the tuple of the variables it changes -/
+def convScanStep (query_start : Int) (split_contig : Bool) (query_end : Int) (acc : Int × List String × Int) (i : Seg) : Int × List String × Int :=
+  let new_start := acc.1
+  let nodes_tmp := acc.2.1
+  let new_total := acc.2.2
+  let s := i.so
+  let e := (i.so + (i.en - i.so))
+  let cases := (-1 : Int)
+  if ((s ≤ query_start) ∧ (query_start < e)) then
+    let cases := (1 : Int)
+    let new_start := (if (new_start = (-1 : Int)) then (if (split_contig = true) then query_start else (query_start - s)) else new_start)
+    if (cases ≠ (-1 : Int)) then
+      let nodes_tmp := (nodes_tmp ++ [i.id])
+      let new_total := (new_total + (e - s))
+      (new_start, nodes_tmp, new_total)
+    else
+      (new_start, nodes_tmp, new_total)
+  else
+    let cases := (if ((s < query_end) ∧ (query_end ≤ e)) then (2 : Int) else (if ((query_start < s) ∧ (s < e) ∧ (e < query_end)) then (3 : Int) else cases))
+    if (cases ≠ (-1 : Int)) then
+      let nodes_tmp := (nodes_tmp ++ [i.id])
+      let new_total := (new_total + (e - s))
+      (new_start, nodes_tmp, new_total)
+    else
+      (new_start, nodes_tmp, new_total)
+
+/-- the body of `for nd in gaf_contigs`; `none` = an exception -/
+def convTokStep (reference : String → List Seg) (strandPlus : Bool) (path_start path_end : Int) (st : ULoop) (nd : Str) : Option ULoop :=
+  let unstable_coord := st.unstable_coord
+  let orient := st.orient
+  let new_start := st.new_start
+  let new_total := st.new_total
+  if ((nd = ['>']) ∨ (nd = ['<'])) then
+    let orient := some (nd == ['>'])
+    some { unstable_coord := unstable_coord, orient := orient, new_start := new_start, new_total := new_total, split_contig := st.split_contig }
+  else
+    if ((nd.contains ':' = true) ∧ (nd.contains '-' = true)) then
+      let tmp := (splitOnChar ':' (rstrip nd))
+      match tmp[0]? with
+      | none => none
+      | some tmp_0 =>
+        let query_contig_name := tmp_0
+        match tmp[1]? with
+        | none => none
+        | some tmp_1 =>
+          match (splitOnChar '-' (rstrip tmp_1)) with
+          | [query_start, query_end] =>
+            let split_contig := true
+            let orient := (if (orient = none) then (if (strandPlus = true) then some true else some false) else orient)
+            match toInt query_start with
+            | none => none
+            | some query_start_int =>
+              match toInt query_end with
+              | none => none
+              | some query_end_int =>
+                match Gaftools.Gen.searchIv (reference (String.ofList query_contig_name)) query_start_int query_end_int (((reference (String.ofList query_contig_name))).length + 2) (0 : Int) (((reference (String.ofList query_contig_name))).length : Int) with
+                | none => none
+                | some (start, end_) =>
+                  let nodes_tmp := ([] : List String)
+                  let acc := ((pySlice (reference (String.ofList query_contig_name)) start (end_ + (1 : Int)))).foldl (convScanStep query_start_int split_contig query_end_int) (new_start, nodes_tmp, new_total)
+                  let new_start := acc.1
+                  let nodes_tmp := acc.2.1
+                  let new_total := acc.2.2
+                  if (orient = some false) then
+                    match ((nodes_tmp).reverse).foldlM (fun (unstable_coord : List (Bool × String)) (i : String) =>
+                          match orient with
+                          | none => none
+                          | some o =>
+                            let unstable_coord := (unstable_coord ++ [(o, i)])
+                            some unstable_coord)
+                        unstable_coord with
+                    | none => none
+                    | some unstable_coord =>
+                      some { unstable_coord := unstable_coord, orient := orient, new_start := new_start, new_total := new_total, split_contig := some split_contig }
+                  else
+                    match (nodes_tmp).foldlM (fun (unstable_coord : List (Bool × String)) (i : String) =>
+                          match orient with
+                          | none => none
+                          | some o =>
+                            let unstable_coord := (unstable_coord ++ [(o, i)])
+                            some unstable_coord)
+                        unstable_coord with
+                    | none => none
+                    | some unstable_coord =>
+                      some { unstable_coord := unstable_coord, orient := orient, new_start := new_start, new_total := new_total, split_contig := some split_contig }
+          | _ => none
+    else
+      let query_start := path_start
+      let query_end := path_end
+      let query_contig_name := nd
+      let split_contig := false
+      let orient := (if (orient = none) then (if (strandPlus = true) then some true else some false) else orient)
+      match Gaftools.Gen.searchIv (reference (String.ofList query_contig_name)) query_start query_end (((reference (String.ofList query_contig_name))).length + 2) (0 : Int) (((reference (String.ofList query_contig_name))).length : Int) with
+      | none => none
+      | some (start, end_) =>
+        let nodes_tmp := ([] : List String)
+        let acc := ((pySlice (reference (String.ofList query_contig_name)) start (end_ + (1 : Int)))).foldl (convScanStep query_start split_contig query_end) (new_start, nodes_tmp, new_total)
+        let new_start := acc.1
+        let nodes_tmp := acc.2.1
+        let new_total := acc.2.2
+        if (orient = some false) then
+          match ((nodes_tmp).reverse).foldlM (fun (unstable_coord : List (Bool × String)) (i : String) =>
+                match orient with
+                | none => none
+                | some o =>
+                  let unstable_coord := (unstable_coord ++ [(o, i)])
+                  some unstable_coord)
+              unstable_coord with
+          | none => none
+          | some unstable_coord =>
+            some { unstable_coord := unstable_coord, orient := orient, new_start := new_start, new_total := new_total, split_contig := some split_contig }
+        else
+          match (nodes_tmp).foldlM (fun (unstable_coord : List (Bool × String)) (i : String) =>
+                match orient with
+                | none => none
+                | some o =>
+                  let unstable_coord := (unstable_coord ++ [(o, i)])
+                  some unstable_coord)
+              unstable_coord with
+          | none => none
+          | some unstable_coord =>
+            some { unstable_coord := unstable_coord, orient := orient, new_start := new_start, new_total := new_total, split_contig := some split_contig }
 end Gaftools.Gen
 """,
     "CmpGaf": """import Gaftools.Model.Sort
